@@ -469,7 +469,7 @@ impl Symbol {
             };
             let pos = pos + 1;
 
-            if c2.is_ascii_control() {
+            if !(0x20..0x7F).contains(&c2) {
                 // Only printable ASCII characters allowed.
                 return Err(bad_escape());
             } else if !c2.is_ascii_digit() {
